@@ -35,25 +35,32 @@ impl Seek for SharedDest {
     }
 }
 
-pub fn calls_json(calls: &[Call]) -> Vec<Value> {
+/// Positions are shown relative to `disp` (the window base of the destination: 0 unless the dump started beyond 4 GiB), as signed
+/// numbers, so that they stay small enough for TLC's integers.
+pub fn calls_json_at(calls: &[Call], disp: u64) -> Vec<Value> {
+    let r = |p: &u64| *p as i128 - disp as i128;
     calls
         .iter()
         .map(|c| match c {
-            Call::StreamPos { res } => json!(["pos", res, 0]),
-            Call::Seek { to, .. } => json!(["seek", to, 0]),
-            Call::Write { pos, data } => json!(["write", pos, data.len()]),
+            Call::StreamPos { res } => json!(["pos", r(res) as i64, 0]),
+            Call::Seek { to, .. } => json!(["seek", r(to) as i64, 0]),
+            Call::Write { pos, data } => json!(["write", r(pos) as i64, data.len()]),
             Call::Flush => json!(["flush", 0, 0]),
             Call::Failed { what } => json!(["failed", what, 0]),
         })
         .collect()
 }
 
+pub fn calls_json(calls: &[Call]) -> Vec<Value> {
+    calls_json_at(calls, 0)
+}
+
 /// The same, with the pieces of one `write_all` (consecutive writes at contiguous positions) joined: the unit DirOps speaks about.
-pub fn calls_json_joined(calls: &[Call]) -> Vec<Value> {
+pub fn calls_json_joined(calls: &[Call], disp: u64) -> Vec<Value> {
     let mut out: Vec<Value> = Vec::new();
-    for c in calls_json(calls) {
+    for c in calls_json_at(calls, disp) {
         if let Some(last) = out.last_mut() {
-            if last[0] == "write" && c[0] == "write" && last[1].as_u64().unwrap_or(0) + last[2].as_u64().unwrap_or(0) == c[1].as_u64().unwrap_or(u64::MAX) {
+            if last[0] == "write" && c[0] == "write" && last[1].as_i64().unwrap_or(0) + last[2].as_i64().unwrap_or(0) == c[1].as_i64().unwrap_or(i64::MAX) {
                 last[2] = json!(last[2].as_u64().unwrap_or(0) + c[2].as_u64().unwrap_or(0));
                 continue;
             }
@@ -69,20 +76,21 @@ fn lcp(a: &[u8], b: &[u8]) -> usize {
 
 /// Observation after a public call: everything C09 talks about, computed from the real bytes.
 pub fn observe(dest: &RecDest, buf: &[u8], calls_from: usize) -> Value {
-    let start = dest.start as usize;
+    let disp = dest.base;
+    let start = (dest.start - disp) as usize;
     let img_part = dest.image_part();
-    let hi = dest.written_hi() as usize;
-    let tail_mod = dest.first_modified_from(start + buf.len());
+    let hi = (dest.written_hi().max(dest.start) - disp) as usize;
+    let tail_mod = dest.first_modified_from(dest.start as usize + buf.len()).map(|x| x - disp as usize);
     json!({
         "imgLen": buf.len(),
-        "fpos": dest.pos,
+        "fpos": dest.pos as i128 as i64 - disp as i64,
         "fileHi": hi,
         // longest common prefix of destination[start..written_hi) and the image
         "lcp": lcp(&img_part[..(hi - start).min(img_part.len())], buf),
         "prefixIntact": dest.prefix_intact(),
         // first pre-existing byte beyond the end of the image that was modified (-1: none)
         "tailMod": tail_mod.map(|x| x as i64).unwrap_or(-1),
-        "calls": calls_json_joined(&dest.calls[calls_from..]),
+        "calls": calls_json_joined(&dest.calls[calls_from..], disp),
     })
 }
 
@@ -107,7 +115,8 @@ pub fn replay_history(hist: &[Value], hid: u64, tr: &mut Trace, origin: &str) {
         }
     };
     let ncalls0 = shared.0.borrow().calls.len();
-    tr.emit(json!({"ev":"new","start":start,"slots":slots,"preLen":pre_len,"dirPos":dir.position(),
+    let disp = shared.0.borrow().base;
+    tr.emit(json!({"ev":"new","start":start - disp,"slots":slots,"preLen":pre_len as u64 - disp.min(pre_len as u64),"dirPos":dir.position(),
                    "obs": observe(&shared.0.borrow(), &buf, 0)}));
     let mut ncalls = ncalls0;
     let mut last_grow = MDLocationDescriptor { data_size: 0, rva: 0 };
@@ -159,7 +168,8 @@ pub fn replay_history(hist: &[Value], hid: u64, tr: &mut Trace, origin: &str) {
 /// Random histories beyond the TLC bounds: more slots, more operations, arbitrary sizes/offsets.
 pub fn random_history(r: &mut Rng) -> Vec<Value> {
     let slots = r.range(1, 20);
-    let start = *r.pick(&[0u64, 1, 7, 12, 4096, 65537]);
+    // destinations positioned beyond 4 GiB too (a dump appended to a huge file): offsets do not fit 32 bits there
+    let start = *r.pick(&[0u64, 1, 7, 12, 4096, 65537, (1 << 32) + 4096, (1 << 32) + 7, 5 * (1 << 32), (1 << 40) + 12345]);
     let mut h = vec![json!({"op":"new","start":start,"slots":slots})];
     let mut used = 0;
     // one history in ten works with multi-MiB streams (size thresholds), and is kept short
